@@ -164,3 +164,22 @@ def try_info(body, res_local):
     if not out["branch_bbs"]:
         return None
     return out
+
+
+def own_errors(F, body):
+    """Places where `body` itself makes an error its result: an `Err(..)` aggregate assigned to the return place, or a call
+    into the return place of a local function all of whose results are Err (err_exit_code and friends).  Errors arriving
+    through `?` (from_residual) are propagated, not own."""
+    own = []
+    for bb in sorted(body.normal_blocks()):
+        for s in body.stmts(bb):
+            r = s.get("r") or {}
+            if s.get("k") == "assign" and s["p"]["l"] == 0 and not s["p"]["p"] and r.get("k") == "agg" and r.get("adt") == "std::result::Result" and r.get("vname") == "Err":
+                own.append(body.where(bb))
+        t = body.term(bb)
+        if t["k"] == "call" and t.get("dest") and t["dest"]["l"] == 0 and not t["dest"]["p"]:
+            c = t["callee"]
+            lc = c.get("resolved") if c.get("rlocal") else (c.get("def") if c.get("local") else None)
+            if lc and always_err(F, lc):
+                own.append(body.where(bb))
+    return own
